@@ -188,6 +188,27 @@ pub fn run_salt(scn: &Scenario, ctx: &mut Ctx) {
                 if digest_of(&e1) == digest_of(&e2) || digest_of(&e1.elide()) == digest_of(&e2.elide()) {
                     ctx.violate("C17.decorrelate", "two independent saltings of equal envelopes have the same digest".to_string());
                 }
+                // two further parties, each on a thread of its own with its own entropy, salt the same envelope too
+                if op == "Z.AddSalt" && st.arg(1) % 4 == 0 {
+                    let (s1, s2) = (sha(&(st.arg(1) ^ 0x7431).to_le_bytes()), sha(&(st.arg(1) ^ 0x7432).to_le_bytes()));
+                    let on_thread = |seed: [u8; 32]| {
+                        let d = doc.clone();
+                        std::thread::spawn(move || {
+                            bc_rand::verif_set_thread_seed(Some(seed));
+                            let r = std::panic::catch_unwind(std::panic::AssertUnwindSafe(|| digest_of(&d.add_salt())));
+                            bc_rand::verif_set_thread_seed(None);
+                            r.ok()
+                        })
+                    };
+                    let (h1, h2) = (on_thread(s1), on_thread(s2));
+                    if let (Ok(Some(d1)), Ok(Some(d2))) = (h1.join(), h2.join()) {
+                        ctx.checked();
+                        ctx.probe("salted-on-two-threads");
+                        if d1 == d2 {
+                            ctx.violate("C17.decorrelate", "two parties salting equal envelopes on two threads (each with its own entropy) get the same digest".to_string());
+                        }
+                    }
+                }
                 ctx.t(&format!("{} n={} range {}..={}", op, n, lo, hi));
             }
             "Z.WithLen" => {
@@ -343,7 +364,7 @@ pub fn run_salt(scn: &Scenario, ctx: &mut Ctx) {
                     }
                 }
                 // the envelope form: the assertion being added already carries an assertion of its own, or is obscured
-                let variant = st.arg(3) % 6;
+                let variant = st.arg(3) % 7;
                 let decorated = plain.add_assertion("since", (st.arg(3) % 50) as u32);
                 let pre: Envelope = match variant {
                     0 => decorated.clone(),
@@ -352,6 +373,8 @@ pub fn run_salt(scn: &Scenario, ctx: &mut Ctx) {
                     3 => decorated.elide_removing_target(&plain),
                     4 => decorated.elide_removing_target_with_action(&plain, &ObscureAction::Compress),
                     5 => decorated.elide_removing_target_with_action(&plain, &ObscureAction::Encrypt(sym_key(2))),
+                    // assertions on two levels: the decorated assertion compressed, decorated again, its subject restored
+                    6 => decorated.compress().and_then(|c| c.add_assertion("seen", 1).uncompress_subject()).unwrap_or_else(|_| decorated.clone()),
                     _ => plain.clone(),
                 };
                 let own_before = pre.assertions().len();
@@ -624,7 +647,7 @@ pub fn run_expr(scn: &Scenario, ctx: &mut Ctx) {
                 if st.arg(3) % 2 == 0 {
                     rq = rq.with_parameter(make_parameter(st.arg(2) + 1), val2.clone());
                 }
-                if !note.is_empty() {
+                if !note.is_empty() || st.arg(3) % 7 == 3 {
                     rq = rq.with_note(note.clone());
                 }
                 if let Some(dt) = &date {
@@ -802,7 +825,8 @@ pub fn run_expr(scn: &Scenario, ctx: &mut Ctx) {
                 let date = sim_date(clock, st.arg(4));
                 let content = format!("content-{}", st.arg(2) % 1000);
                 let mut ev = Event::<String>::new(content.clone(), arid(st.arg(2)));
-                if !note.is_empty() {
+                if !note.is_empty() || st.arg(3) % 7 == 3 {
+                    // (case 3: an explicitly empty note - the same as no note)
                     ev = ev.with_note(note.clone());
                 }
                 if let Some(dt) = &date {
@@ -1000,7 +1024,13 @@ pub fn run_attach(scn: &Scenario, ctx: &mut Ctx) {
                             }
                         }
                     };
-                    let bad_assertion = Envelope::new_assertion(known_values::ATTACHMENT, bad_obj);
+                    // (every seventh time the alteration is on the assertion itself: an assertion hung on it)
+                    let bad_assertion = if st.arg(3) % 7 == 6 {
+                        ctx.fault("cbor.struct.assertion-on-attachment-assertion");
+                        a.add_assertion("altered", 1)
+                    } else {
+                        Envelope::new_assertion(known_values::ATTACHMENT, bad_obj)
+                    };
                     // by digest the altered assertion may coincide with another, well-formed attachment
                     // (e.g. an encrypted payload unwrapped = the digest of a wrapped payload): then nothing malformed remains
                     if rx.assertions().iter().any(|x| digest_of(x) == digest_of(&bad_assertion)) {
@@ -1275,7 +1305,7 @@ pub fn generate_attach(property: &str, r: &mut SimRng, seed: u64) -> Scenario {
     let n = r.range(1, 3);
     for _ in 0..n {
         let op = *r.pick(&["A.Attach", "A.Attach", "A.Malformed", "A.Types"]);
-        scn.push(op, &[ds(r), r.next(), r.next() % 4096, r.below(6)]);
+        scn.push(op, &[ds(r), r.next(), r.next() % 4096, r.below(7)]);
     }
     scn
 }
